@@ -515,7 +515,8 @@ def _cc2_ens(S, a, r):
                                                           r.data.f("endtime", c0.data.n + j) == c1.data.f("endtime", j))))),
             ("data type, kind and run id are those of the parts", S.And(S.eq(r.data_type, c0.data_type), S.eq(r.data_kind, c0.data_kind),
                                                                          S.eq(r.run_id, c0.run_id))),
-            ("only chunks in time order are joined", c0.end <= c1.start)]
+            ("only chunks in time order are joined", c0.end <= c1.start),
+            ("the result is a well-formed chunk again", S.And(*[f for _, f in chunk_wf(S, r)]))]
 
 
 concatenate2 = REG.add(Contract(
@@ -526,7 +527,7 @@ concatenate2 = REG.add(Contract(
     raises={"ValueError": lambda S, a: a.chunks[1].start < a.chunks[0].end, "ValueError:runs": lambda S, a: S.true},
     calls={"cls": chunk_init_rows, "np.concatenate": _np_concatenate, "_merge_superrun_in_chunk": _merge_ann,
            "_merge_subruns_in_chunk": _merge_ann, "warn": Abstract(sort=None), "max": Abstract(pure=True)},
-    static=True,
+    static=True, returns=CHUNK,
     expected_dead=[("raise ValueError", "Need at least one chunk to concatenate"),
                    ("raise ValueError", "Cannot concatenate chunks of different data types"),
                    ("raise ValueError", "chunks with different run ids")],
